@@ -99,6 +99,9 @@ func applyPart(c *CfgCore, p *Part, owner int) {
 	if p.MA != nil {
 		c.MA = buildMA(p.MA)
 	}
+	if p.KP != nil {
+		c.KP = buildKP(p.KP)
+	}
 	if p.Pairs != nil {
 		c.Pairs = buildPairs(p.Pairs)
 	}
